@@ -394,13 +394,13 @@ Example outcome_io_size0 : xerial_read_to_end (xerial_header ++ enc_i32 0) = Err
 Proof. vm_compute. reflexivity. Qed.
 Example outcome_io_size_neg : xerial_read_to_end (xerial_header ++ enc_i32 (-1)) = Err (EIo IoOther).
 Proof. vm_compute. reflexivity. Qed.
-(* chunk size 2 but only 1 byte left: split_at panics *)
+(* chunk size 2 but only 1 byte left: an error (a split_at panic before the fix in /repo) *)
 Example outcome_panic :
-  xerial_read_to_end (xerial_header ++ enc_i32 2 ++ [x00]) = Panic (tag "snappy split_at"%str).
+  xerial_read_to_end (xerial_header ++ enc_i32 2 ++ [x00]) = Err (EIo IoOther).
 Proof. vm_compute. reflexivity. Qed.
 (* chunk size 1 and nothing left *)
 Example outcome_panic_min :
-  xerial_read_to_end (xerial_header ++ enc_i32 1) = Panic (tag "snappy split_at"%str).
+  xerial_read_to_end (xerial_header ++ enc_i32 1) = Err (EIo IoOther).
 Proof. vm_compute. reflexivity. Qed.
 
 (* --- behaviour of the real code worth knowing --------------------------- *)
